@@ -66,6 +66,13 @@ func allGlobalIndices() []impV {
 			out = append(out, impV{Kind: 1, Rollup: r, LeafIdx: l})
 		}
 	}
+	// mainnet claims whose on-chain global index carries non-zero bits in the (unused) rollup part: the bridge contract
+	// ignores them for a mainnet claim, DecodeGlobalIndex hands them on. (Appended last: indices into this list are used below.)
+	for _, r := range []int{1, 4} {
+		for _, l := range []int{0, 2, 4} {
+			out = append(out, impV{Kind: 2, Rollup: r, LeafIdx: l})
+		}
+	}
 	return out
 }
 
@@ -610,8 +617,9 @@ func main() {
 				"because the signature is perturbed in length too",
 			"a bridge exit's metadata is the 32-byte keccak of the bridge metadata or absent (what the flows build); other lengths are outside " +
 				"the domain; absent metadata is committed to as keccak of the empty string",
-			"a global index is one 256-bit value; for a mainnet index the rollup part is zero by definition, so rollup_index of a mainnet " +
-				"index is not perturbed and switching the flag on clears it",
+			"a global index is one 256-bit value; for a mainnet index the rollup part carries no information (the bridge contract ignores it): " +
+				"the shapes include mainnet claims whose on-chain index has non-zero bits there, the value every carrier must denote is flag<<64 | leaf, " +
+				"rollup_index of a mainnet index is not perturbed and switching the flag on clears it",
 			"leaf type is perturbed inside {transfer, message}; amounts stay below 2^256; pointers are not set to nil and the claim kind / " +
 				"aggchain-data kind of an element is not switched by a perturbation (both kinds occur in the shapes)",
 			"in the stored JSON a field covered by a commitment or by the id must be present as a key; uncovered fields may be omitted when zero/empty",
